@@ -174,3 +174,104 @@ Example C11_hypotheses_inhabited :
   DispatchSpec.candidates [x_class] (Dispatch.i_name x_im) (q_member x_q) <> [] /\
   quiescent st /\ ~ stuck x_cfg 1 2 st.
 Proof. exact example_hypotheses. Qed.
+
+(* ======================================================================================
+   BYTE level (Model/SystemBytes.v).  Same components and application actions; a link
+   carries the concatenation of the raw encodings [enc] of the messages written on it,
+   [BDeliver lk n] hands the link's reader the next n pending bytes in one read - any n -,
+   the reader is BasicDBusProtocol.dataReceived after authentication (Model/Framing.v:
+   the subject of C04), each message it frames is parsed ([dec]) and given to the same
+   handler as at message level.  The codec (enc, dec) is universally quantified; what is
+   asked of it is [encodable m] for the messages in flight: enc m announces its own length
+   (what C03_frame_length / C03_frame_shape + C04_wellframed_from_frame_len establish of
+   constructed messages) and dec (enc m) = Some m (C03_parse_own; C14_unchanged for what
+   the bus re-serialises).  [good_run bs sched]: at every step of the run, every message in
+   flight is encodable. *)
+From Tx Require Import Model.SystemBytes Model.WireCodec Proofs.SystemBytesProofs.
+From Tx Require Model.Framing Spec.FramingSpec.
+
+(* One link (from the lemmas behind C04_partition_independent / C04_messages_intact): the
+   reader has buffered a beginning of the link's stream; then ANY read of the pending bytes
+   - one byte, a piece of a header, one and a half messages, everything - frames exactly
+   the first k messages written, byte-identical, in order (each when its last byte
+   arrives), and the reader stands in the same relation to the remaining ones. *)
+Theorem C11_link_any_chunking :
+  forall (enc : BusRoute.bmsg -> bytes) (r : rx_state) (ws : list wire) (n : nat),
+    rx_ok enc r ws -> Forall (fun w => FramingSpec.wellframed (enc (w_msg w))) ws ->
+    let chunk := firstn n (skipn (length (Framing.s_buf r)) (stream enc ws)) in
+    exists k, snd (rx_recv r chunk) = map Framing.Msg (encs enc (firstn k ws)) /\
+              rx_ok enc (fst (rx_recv r chunk)) (skipn k ws).
+Proof. exact (fun enc => link_read enc (fun _ => None)). Qed.
+
+(* Every byte-level schedule IS a message-level schedule: the run reports the message-level
+   actions it amounts to (a delivery AUp c / ADown c per message, at the read carrying its
+   last byte), and the state - invocation records, result records, completions, pending
+   calls, everything - is the state of Model/System.v after exactly that schedule. *)
+Theorem C11_bytes_refine_messages :
+  forall g enc dec h0 serial0 sched,
+    good_run g enc dec (binit (init h0 serial0)) sched ->
+    bs_sys (fst (brun g enc dec h0 serial0 sched)) = run g h0 serial0 (snd (brun g enc dec h0 serial0 sched)).
+Proof. exact bytes_refine_messages. Qed.
+
+(* The end-to-end statement over BYTE-level schedules: C11_end_to_end_message_level_partial
+   composed with the refinement.  `_partial` because of the one premise [good_run]: that every
+   message in flight is encodable is proved here neither for all messages the model's senders
+   produce nor for the concrete codec of Model/WireCodec.v (Message.marshal_header /
+   the header part of parse_message) - it is decided by computation on the example below
+   and checked by the correspondence run on every message of every case (OpsC11 `codec`).
+   What remains for the name C11_end_to_end: the invariant "in flight => encodable" for
+   WireCodec from C03_wellformed / C03_frame_length / C03_parse_own. *)
+Theorem C11_end_to_end_byte_level_partial :
+  forall (g : config) (enc : BusRoute.bmsg -> bytes) (dec : bytes -> option BusRoute.bmsg)
+         (h0 : list BusRoute.event) (serial0 : nat -> N)
+         (bpre bpost : list baction) (i j : client) (pidx : nat) (member : str) (args : list pyval) (kw : kwargs)
+         (px : proxy) (q : creq) (d : str) (ts_in ts_out : list ty) (ws_in : list wval)
+         (o : Dispatch.object) (im : Dispatch.iface) (m : Dispatch.meth),
+  let B := fst (BusRoute.run h0) in
+  let s1 := bs_sys (fst (brun g enc dec h0 serial0 bpre)) in
+  let st := bs_sys (fst (brun g enc dec h0 serial0 (bpre ++ BApp (ACall i pidx member args kw) :: bpost))) in
+  let n := p_serial (proc_of g s1 i) in
+  let id := Calls.st_next_id (s_calls s1 i) in
+  let dc := arriving_call q (arrived ts_in ws_in) (unique_name i) (Z.of_N n) in
+  good_run g enc dec (binit (init h0 serial0)) (bpre ++ BApp (ACall i pidx member args kw) :: bpost) ->
+  all_hello B -> mem i (b_clients (BusRoute.r_bus B)) = true -> mem j (b_clients (BusRoute.r_bus B)) = true ->
+  validate_bus (unique_name i) = true ->
+  nth_error (s_proxies s1 i) pidx = Some px ->
+  call_remote (ifaces_of (p_heap (proc_of g s1 i)) (px_ifaces px)) (px_bus px) (px_path px) member args kw = PcCall q ->
+  q_expect q = true -> q_dest q = Some d -> route B d = Some j ->
+  q_sig q = Some (show_list ts_in) -> q_args q = args ->
+  constructible q -> n <= Calls.max_serial ->
+  passed ts_in args ws_in (g_fuel g) ->
+  DispatchSpec.distinct_interfaces (g_exports g j) -> DispatchSpec.builtin dc = false ->
+  DispatchSpec.addressed (g_exports g j) dc = DispatchSpec.TMethod o im m ->
+  DispatchSpec.candidates o (Dispatch.i_name im) (q_member q) <> [] ->
+  q_rs q = Calls.RsStr (Dispatch.m_out m) -> Dispatch.m_out m = show_list ts_out ->
+  quiescent st -> ~ stuck g i j st ->
+  exists f l x,
+    In f (DispatchSpec.candidates o (Dispatch.i_name im) (q_member q)) /\
+    only (has_tag (tag_of i n)) (s_invs st) (j, tag_of i n, DispatchSpec.expected_invocation dc f) /\
+    only (has_tag (tag_of i n)) (s_results st) (j, tag_of i n, l) /\
+    only (is_done i id) (s_done st) (i, id, x) /\
+    mirrors ts_out (g_fuel g) l x.
+Proof. exact end_to_end_bytes. Qed.
+
+(* the premise is decidable for a computable codec: the boolean check implies it *)
+Theorem C11_good_run_decidable :
+  forall g enc dec sched bs, good_runb g enc dec bs sched = true -> good_run g enc dec bs sched.
+Proof. exact good_runb_ok. Qed.
+
+(* Non-vacuity: the two-delivery-order scenario, order B, with the concrete codec of
+   Model/WireCodec.v, everything the exporter reads arriving ONE BYTE at a time (200
+   one-byte reads per message slot; the first request is 92 bytes long), the other links
+   in whole reads.  The byte-level run amounts to exactly the message-level order B, ends
+   quiescent with the same completions and invocation arguments, and every message in
+   flight at every step is encodable (the premise of the two theorems above). *)
+Example C11_bytewise_delivery :
+  length (y_enc (call_msg (mkReq x_path x_M (Some x_iface) (Some (unique_name 2)) (Some x_i) [PInt 9] true true None
+                                 (Calls.RsStr x_i)) 10 [9; 0; 0; 0])) = 92%nat /\
+  snd y_run = x_order_b /\
+  x_done (bs_sys (fst y_run)) = [(3, 0%nat, CValue (Some (PInt 9))); (1, 0%nat, CValue (Some (PInt 7)))] /\
+  x_args (bs_sys (fst y_run)) = [(2, [PInt 9]); (2, [PInt 7])] /\
+  s_net (bs_sys (fst y_run)) = [] /\ s_open (bs_sys (fst y_run)) = [] /\
+  good_runb x_cfg y_enc y_dec (binit (init x_h0 (fun _ => 10))) y_sched = true.
+Proof. exact example_bytes. Qed.
